@@ -1004,8 +1004,10 @@ class Facts:
         for i, b in self.bodies.items():
             if b.kind == "Closure" or b.derived or "::tests::" in i or "::test::" in i or fam(i) in known or i in anchors:
                 continue
-            if b.n > inline.MAX_BLOCKS or b.local_ty(0).startswith("core::result::Result<") or b.impl_trait:
+            if b.n > inline.MAX_BLOCKS or b.impl_trait:
                 continue
+            if b.local_ty(0).startswith("core::result::Result<") and b.crate != "nomt":
+                continue  # the verifier rules (C08 / C18) look for error-returning guards per function
             if b.impl_self and re.sub(r"<.*$", "", b.impl_self) in anchors:
                 # a new method of a type the rules know as an OWNER (who-may-mutate rules: InMemory, OverlayStatus, FreeList ..)
                 # stays a method of that type
@@ -1038,7 +1040,7 @@ class Facts:
             if text_refs is None:
                 text_refs = "\n".join(json.dumps(b.j.get("blocks")) for i, b in self.bodies.items() if i not in new)
             # function items used as values (`map(Self::helper)`) keep the helper alive
-            if ('"%s"' % h) in text_refs.replace('"inlined": "%s"' % h, "").replace('"inl": "%s"' % h, ""):
+            if ('"%s"' % h) in text_refs.replace('"inlined": "%s"' % h, "").replace('"inl": "%s"' % h, "").replace('"from": "%s"' % h, ""):
                 continue
             del self.bodies[h]
 
